@@ -26,6 +26,7 @@ import (
 	"github.com/cornelk/hashmap"
 	"github.com/pkg/errors"
 
+	"rcproxy/core/pkg/constant"
 	"rcproxy/core/pkg/logging"
 	"rcproxy/core/pkg/redis"
 )
@@ -373,11 +374,17 @@ func (c *ClusterNode) parseSlot(slotsStr string) (int32, int32, error) {
 		return -1, -1, errors.New("slot parse failed")
 	}
 	if len(slots) <= 1 {
+		if start < 0 || start >= constant.RedisClusterSlots {
+			return -1, -1, errors.New("slot out of range")
+		}
 		return int32(start), int32(start), nil
 	}
 	end, err = strconv.ParseInt(slots[1], 10, 32)
 	if err != nil {
 		return -1, -1, errors.New("slot parse failed")
+	}
+	if start < 0 || end >= constant.RedisClusterSlots {
+		return -1, -1, errors.New("slot out of range")
 	}
 	return int32(start), int32(end), nil
 }
